@@ -376,6 +376,23 @@ Fixpoint set_seeds (a : list bool) (cnt : N) (seeds : list nat) : res (list bool
   | i :: r => ac <- bv_set a cnt i ;; set_seeds (fst ac) (snd ac) r
   end.
 
+(* the two construction loops of _new: motif and background counts of the active sequences *)
+Definition new_build (c : cfg) (act : list bool) (cnt : N) (starts0 : list nat) : res state :=
+  (* build motif count with active sequences *)
+  mo <- loop (fun i mo =>
+                a <- bv_test act i ;;
+                if a then motif_window c inc_u32 (nth i (cData c) []) (nth i starts0 O) mo else Ok mo)
+             (seq 0 (length (cData c))) (zero_matrix (cW c) (cK c)) ;;
+  (* build background counts with active sequences *)
+  bg <- loop (fun i bg =>
+                a <- bv_test act i ;;
+                if a then
+                  b1 <- bg_counts c add_usize (nth i (cCounts c) []) bg ;;
+                  bg_window c dec1 (nth i (cData c) []) (nth i starts0 O) b1
+                else Ok bg)
+             (seq 0 (length (cData c))) (repeat 0 (cK c)) ;;
+  Ok (mkState act cnt starts0 mo bg 0 0 false).
+
 Definition new_ (K W : nat) (data : list seqt) (wraps : list nat) (m : smode)
                 (initial inertia patience : N)
                 (starts0 : list nat) (seeds0 : list nat) : res (cfg * state) :=
@@ -392,23 +409,9 @@ Definition new_ (K W : nat) (data : list seqt) (wraps : list nat) (m : smode)
                then x <- set_seeds (repeat false n) 0 seeds0 ;; Ok (fst x, snd x, seeds0)
                else Err 2
            end) ;;
-    let '(act, cnt, seed) := ac in
-    let c := mkCfg K W data (sampler_data_counts K data) m seed inertia patience in
-    let st0 := mkState act cnt starts0 (zero_matrix W K) (repeat 0 K) 0 0 false in
-    (* build motif count with active sequences *)
-    mo <- loop (fun i mo =>
-                  a <- bv_test act i ;;
-                  if a then motif_window c inc_u32 (nth i data []) (nth i starts0 O) mo else Ok mo)
-               (seq 0 n) (zero_matrix W K) ;;
-    (* build background counts with active sequences *)
-    bg <- loop (fun i bg =>
-                  a <- bv_test act i ;;
-                  if a then
-                    b1 <- bg_counts c add_usize (nth i (cCounts c) []) bg ;;
-                    bg_window c dec1 (nth i data []) (nth i starts0 O) b1
-                  else Ok bg)
-               (seq 0 n) (repeat 0 K) ;;
-    Ok (c, set_counts st0 mo bg).
+    let c := mkCfg K W data (sampler_data_counts K data) m (snd ac) inertia patience in
+    st0 <- new_build c (fst (fst ac)) (snd (fst ac)) starts0 ;;
+    Ok (c, st0).
 
 (* ---------- SamplerBuilder ---------- *)
 
